@@ -412,6 +412,11 @@ func readHeader(in *io.Reader) (manifest []byte, mac []byte, err error) {
 		*in = io.MultiReader(bytes.NewReader(extraBytes), *in)
 	}
 
+	// The manifest and the MAC are slices of the pooled buffer, which is given back when this function returns
+	// (and can then be overwritten by any other Encrypt or Decrypt call): return copies of them
+	manifest = bytes.Clone(manifest)
+	mac = bytes.Clone(mac)
+
 	return manifest, mac, nil
 }
 
